@@ -509,6 +509,67 @@ pub fn run(args: &Args) -> Report {
     }
     rep.set("random_operations_checked", json!(total_ops));
 
+    // (c2) membership changes from inside a sink while a broadcast is in flight (sends run outside the
+    // registry lock, so this is legal): peers present at the moment of the call still get exactly one
+    // notification and one result; a peer inserted mid-flight gets none
+    {
+        struct ReSink {
+            id: u8,
+            reg: PeerRegistry,
+            got: Arc<Mutex<Vec<(u8, String)>>>,
+            armed: Arc<std::sync::atomic::AtomicBool>,
+            insert_new: bool,
+        }
+        impl PeerSink for ReSink {
+            fn send_notify(&self, method: &str, _b: NotifyBody) -> Result<(), PeerSendError> {
+                self.got.lock().unwrap().push((self.id, method.to_string()));
+                if self.armed.swap(false, Ordering::SeqCst) {
+                    // first sink reached: remove every other peer, optionally insert a newcomer
+                    for p in 0..5u8 {
+                        if p != self.id {
+                            self.reg.remove(pid(p));
+                        }
+                    }
+                    if self.insert_new {
+                        let got = self.got.clone();
+                        self.reg.insert(PeerHandle::new(pid(9), Arc::new(ReSink { id: 9, reg: self.reg.clone(), got, armed: Arc::new(std::sync::atomic::AtomicBool::new(false)), insert_new: false })));
+                    }
+                }
+                Ok(())
+            }
+        }
+        for npeers in 2..=5u8 {
+            for insert_new in [false, true] {
+                let reg = PeerRegistry::new();
+                let got = Arc::new(Mutex::new(vec![]));
+                let armed = Arc::new(std::sync::atomic::AtomicBool::new(true));
+                for p in 0..npeers {
+                    reg.insert(PeerHandle::new(pid(p), Arc::new(ReSink { id: p, reg: reg.clone(), got: got.clone(), armed: armed.clone(), insert_new })));
+                }
+                rep.eval();
+                rep.distinct(&("reentrant", npeers, insert_new));
+                let res = catching(|| reg.broadcast_notify_utf8("/bcast/reentrant", "x"));
+                match res {
+                    Ok(map) => {
+                        let mut ids: Vec<u8> = map.keys().map(|k| unpid(*k)).collect();
+                        ids.sort();
+                        let mut delivered: Vec<u8> = got.lock().unwrap().iter().map(|(i, _)| *i).collect();
+                        delivered.sort();
+                        let want: Vec<u8> = (0..npeers).collect();
+                        if ids != want || delivered != want {
+                            rep.violation(
+                                "C18:broadcast:membership-change-in-flight",
+                                format!("{npeers} peers present at the call; the first sink reached removed the others{}: results for {ids:?}, deliveries to {delivered:?}, expected exactly {want:?}", if insert_new { " and inserted peer 9" } else { "" }),
+                                json!({"peers": npeers, "insert_new": insert_new}),
+                            );
+                        }
+                    }
+                    Err(p) => rep.violation(format!("C18:panic:{}", panic_site(&p)), p, json!({"peers": npeers})),
+                }
+            }
+        }
+    }
+
     // (d) concurrent histories, linearizability
     let nh = if miri { 3 } else { args.budget(1_500, 60_000) };
     let mut lin_ok = 0u64;
